@@ -7,7 +7,6 @@ import (
 	"context"
 	"errors"
 	"fmt"
-	"path"
 	"slices"
 	"strings"
 	"time"
@@ -694,7 +693,10 @@ func (ps *Store) sanitizeName(name string) string {
 }
 
 func (ps *Store) cacheKey(ns *namespace.Namespace, name string) string {
-	return path.Join(ns.UUID, name)
+	// Do not clean the result as a path: policy names are caller-supplied
+	// (e.g. in token creation requests) and a name such as "../<uuid>/p" must
+	// not resolve to the cache entry of another namespace.
+	return ns.UUID + "/" + name
 }
 
 // LoadDefaultPolicies loads default policies for the namespace in the provided context
